@@ -175,7 +175,7 @@ ADDED = {
     "C06": "R-CLOSED by abstract evaluation (see C05). Pre-filter clause of R-TRAVERSE (see C05).",
     "C07": "R-TOLUNIT (self.epsilon is compared with quantities of one length degree only). R-LOUDCAP: running out of polytope faces is asserted, never a silent break. R-SWAPREMOVE: an index handed to a swap-remove inside a loop that changes the container is computed in that iteration; a scan that removes at its own position re-examines it.",
     "C08": "R-ERICSON (point_to_triangle, used for depth and direction); R-PORTALDIR.",
-    "C09": "R-MAINLOOP, R-SUPPORTSIBLING (see C02); R-COFACTORSIGN: every cofactor comparison in BarycentricCoordinates is `d > c` or its exact complement `d <= c`. Vertex candidates of the backup procedure are judged by their effects on a normal form (helpers, literal loops and straight-line methods expanded): weight 1 in slot 0, point, squared norm, recorded index.",
+    "C09": "R-MAINLOOP, R-SUPPORTSIBLING (see C02); R-COFACTORSIGN: every cofactor comparison in BarycentricCoordinates is `d > c` or its exact complement `d <= c`. Vertex candidates of the backup procedure are judged by their effects on a normal form (helpers, literal loops and straight-line methods expanded): weight 1 in slot 0, point, squared norm, recorded index. R-JOHNSONREC (see C18).",
     "C10": "R-TOLUNIT (each epsilon parameter is compared with quantities of a single length degree; three upstream exceptions are named); R-SEGSIBLING (_line_to_line_segment is _line_segment_to_line_segment minus the clamping of t); R-PARALLELSIGN (parallel tests are orientation independent); R-ERICSON (point_to_triangle); R-HALFSIZE; R-PUREARGS. R-AFFINE: every returned vector is an affine combination of positions (position weight 1) or a direction (0) — weights inferred through +, -, constant factors and per call site through private helpers. R-ISOLATED: a case analysis over one scalar leaves no single threshold value to a fall-through written for a range.",
     "C11": "R-TOLUNIT; R-SEGSIBLING; R-PARALLELSIGN; R-ERICSON; R-SIDES (x2 computed from side-2 data: the rectangle extents); R-HALFSIZE. R-ISOLATED (see C10).",
     "C12": "R-TOLUNIT (tolerances keep one length degree: scale covariance of the degeneracy tests); R-MIRROR / R-CASEDISPATCH / R-TOURNAMENT / R-BOXFACE: the line-to-box case analysis is invariant under relabelling of the box axes. R-AFFINE (translation invariance: returned points carry position weight 1); R-SELCOMP (a divisor component is selected by magnitude, not by signed value).",
@@ -184,7 +184,7 @@ ADDED = {
     "C15": "R-ANGLESORT (contact polygon ordered by arctan2(y, x) about the centroid); R-BOUNDEDSTORE (counter-indexed stores into local buffers are bounded by a check or by the loop count); R-STIFFNESS: both terms of the contact-plane expression carry the same Young's-modulus exponents (dimensional bookkeeping with E1, E2 as units); "
            "R-HPLAYOUT: half-plane rows (px, py | dx, dy) are sliced only at pair boundaries. R-PLANECROSS also at the caller: before a polygon is built both tetrahedra are tested against the plane (no reduction over the stacked vertices of both). R-STIFFNESS followed from find_contact_surface to contact_plane with the exponents of the actual arguments.",
     "C16": "R-STIFFNESS (see C15). R-STIFFNESS followed through the call chain (a pressure field passed together with the modulus applies the stiffness twice).",
-    "C18": "R-COFACTORSIGN; R-ERICSON (jolt); Solution.from_vertex stores weight 1 in slot 0 (R-JOHNSON). R-BITMAP sees through extracted remap helpers; vertex candidates by effects (see C09).",
+    "C18": "R-COFACTORSIGN; R-ERICSON (jolt); Solution.from_vertex stores weight 1 in slot 0 (R-JOHNSON). R-BITMAP sees through extracted remap helpers; vertex candidates by effects (see C09). R-JOHNSONREC: all 43 cofactor stores of the original GJK's BarycentricCoordinates follow Johnson's recursion (factors resolved interprocedurally to y_i.(y_k - y_j)).",
     "C19": "R-BASISGUARD. Flag loops (`while not done: ...; done = E`) are classified through their normal form `while True: ...; if E: break`.",
     "C20": "R-BOUNDEDSTORE (see C15).",
 }
